@@ -51,15 +51,13 @@ def split_channels(lines):
 
 
 def canon_snap(impl_ch, model_ch):
-    """The implementation lists live nodes only; restrict the model's snapshot to those."""
-    alive = {}
+    """Both sides list the nodes that are still allocated (the implementation: weak references of the
+    registry that still upgrade; the model: `State.aliveSet`).  The lists must be equal: a node the model
+    has freed but the implementation still holds is a leak (C12)."""
     impl_ch = dict(impl_ch)
     # `refs=[…]` (strong references, also of invalid nodes) is printed by the implementation only: input of holds_C12
     impl_ch["snap"] = [(idx, re.sub(r" refs=\[[^\]]*\]", "", p)) for idx, p in impl_ch.get("snap", [])]
-    for idx, p in impl_ch.get("snap", []):
-        alive.setdefault(idx, set()).add(p.split(" ", 1)[0])
-    model = [(idx, p) for idx, p in model_ch.get("snap", []) if p.split(" ", 1)[0] in alive.get(idx, set())]
-    return impl_ch.get("snap", []), model
+    return impl_ch.get("snap", []), model_ch.get("snap", [])
 
 
 def canon_ev(evs):
@@ -96,6 +94,9 @@ def compare(impl, model, channels=("api", "read", "ev", "snap", "heap", "stats",
         channels = tuple("ev" if c == "ev-propagation" else c for c in channels)
     """Returns a list of (channel, action index, impl payload, model payload) for the first difference
     of each requested channel."""
+    # a dependency cycle announced as misuse (`expectpanic cyclic`) is a cycle of strong references and leaks
+    # by construction: the harness then answers `ok live=cycle` where the model says `ok live=0`
+    impl = [l.replace(" api ok live=cycle", " api ok live=0") for l in impl]
     ic, mc = split_channels(impl), split_channels(model)
     diffs = []
     for c in channels:
